@@ -1,0 +1,188 @@
+//! Read-only accessors for external verification tooling.
+//!
+//! This module only exists with the cargo feature `verif_hooks`, which is off by default. Nothing
+//! in it changes the behaviour of the crate: it copies internal data into plain public
+//! structures, calls internal functions on clones and records the input and output of the
+//! minimizer in a thread local log.
+
+use std::cell::RefCell;
+
+use crate::internal::{compiled_dfa::CompiledDfa, CharClassID};
+use crate::{Match, Scanner};
+
+/// Sizes in bits of the internal id types: state ids, state group ids of the minimizer, terminal
+/// ids and character class ids.
+pub const ID_BITS: [(&str, usize); 4] = [
+    (
+        "StateIDBase",
+        8 * std::mem::size_of::<crate::internal::StateIDBase>(),
+    ),
+    ("StateGroupIDBase", 8 * crate::internal::minimizer::VERIF_STATE_GROUP_ID_BYTES),
+    (
+        "TerminalIDBase",
+        8 * std::mem::size_of::<crate::internal::TerminalIDBase>(),
+    ),
+    ("CharClassIDBase", 8 * std::mem::size_of::<u32>()),
+];
+
+/// A plain copy of a compiled automaton.
+#[derive(Debug, Clone, PartialEq, Eq)]
+pub struct DfaDump {
+    /// The pattern texts the automaton was built from.
+    pub patterns: Vec<String>,
+    /// The terminal ids in priority order.
+    pub terminal_ids: Vec<usize>,
+    /// Per state the transitions `(character class id, target state)` in stored order.
+    pub states: Vec<Vec<(usize, usize)>>,
+    /// Per state the accepting flag and the terminal id.
+    pub end_states: Vec<(bool, usize)>,
+    /// The lookaheads `(terminal id, is positive, automaton)` sorted by terminal id.
+    pub lookaheads: Vec<(usize, bool, DfaDump)>,
+}
+
+/// A plain copy of a compiled scanner mode.
+#[derive(Debug, Clone, PartialEq, Eq)]
+pub struct ModeDump {
+    /// The name of the mode.
+    pub name: String,
+    /// The automaton of the mode.
+    pub dfa: DfaDump,
+    /// The mode transitions `(token type, target mode)` in stored order.
+    pub transitions: Vec<(usize, usize)>,
+}
+
+/// A plain copy of a compiled scanner.
+#[derive(Debug, Clone, PartialEq, Eq)]
+pub struct ScannerDump {
+    /// The compiled modes.
+    pub modes: Vec<ModeDump>,
+    /// The printed form of each registered character class; the index is the class id.
+    pub classes: Vec<String>,
+    /// The current mode of the scanner.
+    pub current_mode: usize,
+}
+
+pub(crate) fn dump_dfa(dfa: &CompiledDfa) -> DfaDump {
+    let mut lookaheads: Vec<(usize, bool, DfaDump)> = dfa
+        .lookaheads
+        .iter()
+        .map(|(t, la)| (t.as_usize(), la.is_positive, dump_dfa(&la.nfa)))
+        .collect();
+    lookaheads.sort_by_key(|l| l.0);
+    DfaDump {
+        patterns: dfa.patterns.clone(),
+        terminal_ids: dfa.terminal_ids.iter().map(|t| t.as_usize()).collect(),
+        states: dfa
+            .states
+            .iter()
+            .map(|s| {
+                s.transitions
+                    .iter()
+                    .map(|(cc, t)| (cc.as_usize(), t.as_usize()))
+                    .collect()
+            })
+            .collect(),
+        end_states: dfa
+            .end_states
+            .iter()
+            .map(|(a, t)| (*a, t.as_usize()))
+            .collect(),
+        lookaheads,
+    }
+}
+
+thread_local! {
+    static PENDING: RefCell<Vec<DfaDump>> = const { RefCell::new(Vec::new()) };
+    static LOG: RefCell<Vec<(DfaDump, DfaDump)>> = const { RefCell::new(Vec::new()) };
+    static LOG_ENABLED: RefCell<bool> = const { RefCell::new(false) };
+}
+
+/// Switches the recording of minimizer calls of the current thread on or off.
+pub fn set_minimizer_log(enabled: bool) {
+    LOG_ENABLED.with(|e| *e.borrow_mut() = enabled);
+}
+
+/// Returns and clears the `(input, output)` pairs of the minimizer calls recorded on the current
+/// thread.
+pub fn take_minimizer_log() -> Vec<(DfaDump, DfaDump)> {
+    PENDING.with(|p| p.borrow_mut().clear());
+    LOG.with(|l| std::mem::take(&mut *l.borrow_mut()))
+}
+
+pub(crate) fn minimizer_input(dfa: &CompiledDfa) {
+    if LOG_ENABLED.with(|e| *e.borrow()) {
+        PENDING.with(|p| p.borrow_mut().push(dump_dfa(dfa)));
+    }
+}
+
+pub(crate) fn minimizer_output(dfa: &CompiledDfa) {
+    if LOG_ENABLED.with(|e| *e.borrow()) {
+        if let Some(input) = PENDING.with(|p| p.borrow_mut().pop()) {
+            LOG.with(|l| l.borrow_mut().push((input, dump_dfa(dfa))));
+        }
+    }
+}
+
+impl Scanner {
+    /// Returns a plain copy of the compiled scanner.
+    pub fn verif_dump(&self) -> ScannerDump {
+        use crate::ScannerModeSwitcher;
+        ScannerDump {
+            modes: self
+                .inner
+                .scanner_modes
+                .iter()
+                .map(|m| ModeDump {
+                    name: m.name.clone(),
+                    dfa: dump_dfa(&m.dfa),
+                    transitions: m
+                        .transitions
+                        .iter()
+                        .map(|(t, m)| (t.as_usize(), m.as_usize()))
+                        .collect(),
+                })
+                .collect(),
+            classes: self
+                .inner
+                .character_classes
+                .character_classes()
+                .iter()
+                .map(|c| c.to_string())
+                .collect(),
+            current_mode: self.inner.current_mode(),
+        }
+    }
+
+    /// Evaluates the match function of the scanner for a registered character class.
+    /// The class id must be less than the number of registered classes.
+    pub fn verif_class_matches(&self, class_id: usize, c: char) -> bool {
+        assert!(class_id < self.inner.character_classes.len());
+        (self.inner.match_char_class)(CharClassID::new(class_id as u32), c)
+    }
+
+    /// Runs the automaton of the given mode once on `input[pos..]` without any iterator glue.
+    /// The returned match is relative to `pos`.
+    pub fn verif_find_at(&self, mode: usize, input: &str, pos: usize) -> Option<Match> {
+        let mut dfa = self.inner.scanner_modes[mode].dfa.clone();
+        let rest = &input[pos..];
+        dfa.find_from(rest, rest.char_indices(), &*self.inner.match_char_class)
+    }
+
+    /// Runs the automaton of the given mode at every character boundary of the input and at its
+    /// end. The result holds `(byte position, match relative to that position)`.
+    pub fn verif_find_table(&self, mode: usize, input: &str) -> Vec<(usize, Option<Match>)> {
+        let mut dfa = self.inner.scanner_modes[mode].dfa.clone();
+        let mut positions: Vec<usize> = input.char_indices().map(|(i, _)| i).collect();
+        positions.push(input.len());
+        positions
+            .into_iter()
+            .map(|pos| {
+                let rest = &input[pos..];
+                (
+                    pos,
+                    dfa.find_from(rest, rest.char_indices(), &*self.inner.match_char_class),
+                )
+            })
+            .collect()
+    }
+}
